@@ -76,6 +76,8 @@ func (impl Implementation) Dormhr(side blas.Side, trans blas.Transpose, m, n, il
 		panic(badIhi)
 	case lda < max(1, nq):
 		panic(badLdA)
+	case ldc < max(1, n):
+		panic(badLdC)
 	case lwork < max(1, nw) && lwork != -1:
 		panic(badLWork)
 	case len(work) < max(1, lwork):
